@@ -1,9 +1,10 @@
 """C13 — MPSA reproduces linear displacement fields exactly (method-level theorem +
 per-instance certificate evaluated in Coq on the real matrices)."""
 import numpy as np
+import scipy.sparse as sps
 
 from harness.core import Prop
-from harness.props.c11 import (make_grid, grid_spec, embed_spec, BIG_SPECS, canon, to_dense, pk, pts, dcoo,
+from harness.props.c11 import (make_grid, grid_spec, embed_spec, BIG_SPECS, inv_term, canon, to_dense, pk, pts, dcoo,
                                 zlist, zi)
 
 import porepy as pp
@@ -59,68 +60,88 @@ class C13(Prop):
     id = "C13"
     props_file = "Props/C13.v"
     preamble = ("From Coq Require Import List ZArith QArith.\nImport ListNotations.\n"
-                "From PP Require Import Model.C11 Model.C13.\nLocal Open Scope Z_scope.\n")
-    n_cases = (20, 120)
+                "From PP Require Import Model.C11 Model.C11_inv Model.C13 Model.C13_local.\nLocal Open Scope Z_scope.\n")
+    n_cases = (20, 100)
     design_ref = "DESIGN.md §5 C13 (certificate tie K, level P-method)"
     level_text = (
-        "METHOD-LEVEL Coq theorems plus a per-instance certificate check, not a proof about the "
+        "METHOD-LEVEL Coq theorems plus per-instance certificate checks, not a proof about the "
         "vectorised Python code. (A) Interaction-region model of the weakly symmetric MPSA-W scheme "
         "over the reals, any dimension, any number of sub-cells and sub-faces: one displacement "
         "gradient per sub-cell; traction continuity (symmetric part of Hooke's law, as in the code), "
         "displacement continuity at continuity points, Dirichlet sub-faces, Neumann sub-faces with "
         "the transposed off-diagonal part taken from the weighted average gradient. For u = b + A x "
         "(ANY constant A, skew part included), one pair of Lame parameters, weights summing to one, "
-        "boundary data taken from u and no elimination of the averaged part (the admissibility "
-        "condition #Neumann sub-faces <= #sub-cells of mpsa.py:_eliminate_ncasym), the constant "
-        "gradient A solves every local equation (C13_linear_solves_local); with a left inverse of the "
-        "local system the computed gradients are A, so every sub-face traction is "
-        "(2 mu sym A + lambda tr A I) n (C13_unique_exact_partial; the guard is needed: "
-        "C13_unique_exact_refuted exhibits a valid region without left inverse), the reconstructed displacement at any point "
-        "is u(x) (C13_bound_displacement), translations and rigid rotations give zero traction "
-        "(C13_translation_zero, C13_rotation_zero). (B) Matrix level: the residuals of 'stress*u_cells "
-        "+ bound_stress*bdata = sigma n' and of the displacement reconstruction are linear in the "
-        "twelve coefficients (b, A), so a bound/equality for the basis fields extends to every linear "
-        "field on that instance (C13_linear_extension_*). Tie = translation validation per run: the "
-        "REAL matrices of pp.Mpsa on each generated grid, converted exactly, are evaluated in Coq for "
-        "every basis field on every row of every non-Neumann face (traction) and every Dirichlet face "
-        "(displacement), band 1e-9 relative.")
+        "boundary data taken from u and no elimination of the averaged part (admissibility "
+        "#Neumann sub-faces <= #sub-cells, mpsa.py:_eliminate_ncasym) the constant gradient A solves "
+        "every local equation (C13_linear_solves_local); the admissibility condition FOLLOWS from the "
+        "property's 3-D restriction 'no two Neumann faces share an edge' on grids whose cells are simple "
+        "polytopes at their vertices (C13_edge_disjoint_admissible); with a left inverse of the local "
+        "system the computed gradients are A, every sub-face traction is (2 mu sym A + lambda tr A I) n "
+        "(C13_unique_exact_partial; the guard is needed: C13_unique_exact_refuted exhibits a valid region "
+        "without left inverse), the reconstructed displacement is u(x) (C13_bound_displacement), "
+        "translations and rigid rotations give zero traction (C13_translation_zero, C13_rotation_zero); "
+        "an approximate left inverse already gives uniqueness (C13_local_unique_solution). (B) Matrix "
+        "level: the residuals of 'stress*u_cells + bound_stress*bdata = sigma n' and of the displacement "
+        "reconstruction are linear in the twelve coefficients (b, A) (C13_linear_extension_*, "
+        "C13_every_field_*). Tie = translation validation per run, exact dyadic arithmetic inside Coq, "
+        "purely relative norm-wise band 1e-9: (i) the REAL matrices of pp.Mpsa for every basis field on "
+        "every row of every non-Neumann face (traction) and Dirichlet face (displacement); (ii) on a "
+        "third of the cases the captured matrix of all local equations applied to the constant gradient "
+        "equals row by row the code's own right-hand sides (all rows but the Neumann rows; "
+        "C13_local_rows_linear_extension); (iii) on a third of the cases the block inverter's output is "
+        "an approximate left inverse (row defect <= 1/2) of the matrix of all local systems.")
     level_note = (
         "Not proved: that mpsa.py assembles exactly the local equations of model (A) (SubcellTopology "
-        "bookkeeping, csym/casym splitting and averaging, block inversion, row scaling, hf2f sums) — "
-        "covered only through the end result by the certificate on the generated instances; the local "
-        "systems are not captured. Invertibility of the local systems and the admissibility of the "
-        "region are hypotheses of the theorems; instances whose captured local systems have condition "
-        "number > 1e10 are outside that guard: they are excluded from the certificate and a failing "
-        "oracle on them is the open known finding 'singular-local-system'; the property's global restriction (all Dirichlet; any "
-        "mix in 2-D; edge-disjoint Neumann faces in 3-D) is enforced by the generator and is NOT "
-        "derived from the local admissibility condition. Traction is claimed on non-Neumann faces and "
-        "displacement reconstruction on Dirichlet faces only (as the property states). Theorems at R, "
-        "certificate executed with exact dyadic arithmetic cross-checked against Q on the first rows "
-        "(instance independence of the field-polymorphic definitions trusted). Float rounding not "
-        "covered (band 1e-9*(1+|exact|) inside Coq). Face-wise boundary types only (no component-wise "
-        "mixing, no Robin, default basis). Only rows of non-Neumann faces (stress, bound_stress) and of "
-        "Dirichlet faces (bound_displacement_*) are sent to Coq. 3-D only with <= 6 cells (quick: a "
-        "few 1-2 cell grids).")
+        "bookkeeping, csym/casym splitting and averaging, row scaling, hf2f sums, sub-problem splitting "
+        "and re-assembly) — covered by certificate (i) on the end result and (ii)/(iii) on the captured "
+        "local systems of unpartitioned small runs (right-hand sides are the return values of "
+        "Mpsa._create_rhs_cell_center / _create_bound_rhs; Neumann rows are skipped in (ii): they are "
+        "inconsistent by construction where the averaged part is eliminated). Soundness of the boolean "
+        "checkers with respect to the real-number hypotheses is NOT proved (theorems at R, certificates "
+        "executed with exact dyadic arithmetic, cross-checked against Q on the first rows). "
+        "C13_edge_disjoint_admissible takes 'two boundary faces of one cell meeting in a vertex share an "
+        "edge' as hypothesis about the grid; the 2-D case of the property (inexact gradients only in "
+        "corner regions whose faces are all Neumann) is not a theorem. Instances whose captured local "
+        "systems have condition number > 1e10 are outside the left-inverse guard: excluded from the "
+        "certificates, a failing oracle on them is the open finding 'singular-local-system'. 2-D grids "
+        "tilted out of the coordinate planes AND discretized in several subproblems are the input class "
+        "of the open finding 'tilted-2d-partition-frame' (excluded from the certificates, oracle "
+        "failures filtered by key). For a tilted 2-D grid the displacement components refer to the "
+        "in-plane frame of pp.map_geometry.map_grid, which the harness calls itself (trusted). Traction "
+        "is claimed on non-Neumann faces and displacement reconstruction on Dirichlet faces only. "
+        "Face-wise boundary types only (no component-wise mixing, no Robin, default basis). Larger grids "
+        "(24-108 cells, partitions with faces shared by three and more subproblems, perturbed hexahedra) "
+        "are checked by the numpy oracle only (norm-wise relative 1e-8). Float rounding not covered. "
+        "Case files are compiled in shards of 4 cases (module-level override of the shard size of "
+        "harness.core.coq_eval_bools; same terms and verdicts).")
     technique = ("Coq proof of the method (interaction-region algebra over R, linearity of the matrix "
-                 "residual) + per-instance certificate evaluated by vm_compute over exact dyadic "
-                 "rationals on the real MPSA matrices + numpy oracle")
+                 "residual, admissibility from the edge-disjoint restriction, uniqueness from an "
+                 "approximate inverse) + per-instance certificates evaluated by vm_compute over exact "
+                 "dyadic rationals on the real MPSA matrices and captured local systems + numpy oracle")
     rule = ("grids as in C11 (CartGrid, StructuredTriangleGrid, Delaunay TriangleGrid, node "
-            "perturbations k/64, small 3-D CartGrid/StructuredTetrahedralGrid); Lame parameters from "
-            "{1/2,1,3/2,2,3} x {0,1/2,1,2,4}; boundary: all Dirichlet, or (2-D) every boundary face "
-            "independently Dirichlet/Neumann incl. all-Neumann, or (3-D) a random set of Neumann faces "
-            "no two of which share an edge; three random linear fields with small integer gradients "
-            "(one of them a pure rotation) plus one translation per case; non-trivial = at least 2 "
-            "cells")
-    trusted = ["geometry arrays, Lame parameters, boundary flags/signs and the four matrices of the "
-               "real run are passed to Coq as exact dyadic rationals"]
+            "perturbations k/64 incl. non-planar hexahedron faces, small 3-D grids; 40% moved by "
+            "x -> 2^k R x + t with exact rational rotations, translations, k in -20..10: grids in other "
+            "coordinate planes, tilted, far away, tiny and huge); Lame parameters from {1/2,1,3/2,2,3} x "
+            "{0,1/2,1,2,4} scaled by 2^-20..2^10; boundary: all Dirichlet, or (2-D) every boundary face "
+            "independently Dirichlet/Neumann incl. all-Neumann, or (3-D) a random set of Neumann faces no "
+            "two of which share an edge; half of the cases discretized in 2 or 3 overlapping subproblems; "
+            "two (quick) resp. five (thorough) larger oracle-only grids incl. "
+            "StructuredTetrahedralGrid([2,2,1]) / ([3,3,2]) in 4 subproblems (faces discretized three and "
+            "four times) and perturbed CartGrid([2,2,2]); three random linear fields (one a pure rotation) "
+            "plus one translation per case; non-trivial = at least 2 cells")
+    trusted = ["geometry arrays, Lame parameters, boundary flags/signs, the four matrices of the real run "
+               "and the captured local matrices are passed to Coq as exact dyadic rationals",
+               "pp.map_geometry.map_grid for the in-plane coordinates of tilted 2-D grids"]
     assumptions = ["constant isotropic stiffness, mu > 0, lambda >= 0 (checked per instance in Coq)",
-                   "left inverse of the local systems; admissible interaction regions (hypotheses)",
-                   "default eta, numba inverter, no partition of the discretization"]
+                   "left inverse of the local systems (hypothesis; certified per instance by the "
+                   "approximate-inverse certificate on a third of the small cases); admissible "
+                   "interaction regions (hypothesis; derived from the 3-D edge-disjoint restriction)",
+                   "default eta, numba inverter"]
 
     # ------------------------------------------------------------------ generation
     def generate(self, rng, n, tier):
         # larger oracle-only cases (see harness/props/c11.py BIG_SPECS)
-        big = BIG_SPECS[:1] if tier == "quick" else BIG_SPECS
+        big = BIG_SPECS[:2] if tier == "quick" else BIG_SPECS
         nbig = min(len(big), max(0, n - 1)) if n >= 4 else 0
         for it in range(n):
             nsub_big = None
@@ -179,9 +200,9 @@ class C13(Prop):
             nsub = rng.choice([None, None, 2, 3]) if g.num_cells >= 2 else None
             case = {"grid": spec, "dim": dim, "mu": sc * rng.choice([0.5, 1.0, 1.5, 2.0, 3.0]),
                     "la": sc * rng.choice([0.0, 0.5, 1.0, 2.0, 4.0]), "dir": dirf, "fields": fields,
-                    "nsub": nsub}
+                    "nsub": nsub, "inv": rng.random() < 0.3, "local": rng.random() < 0.34}
             if nsub_big is not None:
-                case.update(nsub=nsub_big or None, oracle_only=True)
+                case.update(nsub=nsub_big or None, inv=False, local=False, oracle_only=True)
             yield case
 
     # ------------------------------------------------------------------ implementation
@@ -213,10 +234,40 @@ class C13(Prop):
         orig = pp.matrix_operations.invert_diagonal_blocks
 
         def spy(mat, s, method=None):
-            captured.append((mat.copy(), np.array(s).copy()))
-            return orig(mat, s, method=method)
+            out = orig(mat, s, method=method)
+            captured.append((mat.copy(), np.array(s).copy(), out.copy()))
+            return out
 
         pp.matrix_operations.invert_diagonal_blocks = spy
+        loc = {}
+        o_ds = pp.matrix_operations.diagonal_scaling_matrix
+        o_rc, o_rb, o_tv = pp.Mpsa._create_rhs_cell_center, pp.Mpsa._create_bound_rhs, pp.Mpsa._tensor_vector_prod
+
+        def w_ds(m):
+            loc["n_ds"] = loc.get("n_ds", 0) + 1
+            loc.setdefault("A", m.copy())
+            return o_ds(m)
+
+        def w_rc(this, *a, **k):
+            out = o_rc(this, *a, **k)
+            loc.setdefault("rc", out.copy())
+            return out
+
+        def w_rb(this, bound, be, st, sd, subface_rhs):
+            out = o_rb(this, bound, be, st, sd, subface_rhs)
+            loc.setdefault("rb", (out.copy(), be, st, subface_rhs))
+            return out
+
+        def w_tv(this, sd, c, st):
+            loc.setdefault("sd", sd)
+            return o_tv(this, sd, c, st)
+
+        if case.get("local"):
+            # certificate (ii): capture the local equations and both right-hand sides
+            pp.matrix_operations.diagonal_scaling_matrix = w_ds
+            pp.Mpsa._create_rhs_cell_center = w_rc
+            pp.Mpsa._create_bound_rhs = w_rb
+            pp.Mpsa._tensor_vector_prod = w_tv
         try:
             discr.discretize(g, data)
         except ValueError as e:
@@ -227,8 +278,12 @@ class C13(Prop):
                     "neu_share_edge": False, "singular": True}
         finally:
             pp.matrix_operations.invert_diagonal_blocks = orig
+            pp.matrix_operations.diagonal_scaling_matrix = o_ds
+            pp.Mpsa._create_rhs_cell_center = o_rc
+            pp.Mpsa._create_bound_rhs = o_rb
+            pp.Mpsa._tensor_vector_prod = o_tv
         max_cond = 0.0
-        for mat, sizes in captured:
+        for mat, sizes, _ in captured:
             M = mat.tocsr()
             off = np.r_[0, np.cumsum(sizes)]
             for i in range(len(sizes)):
@@ -249,7 +304,29 @@ class C13(Prop):
         non_neu_rows = [f * nd + i for f in range(g.num_faces) if abs(kinds[f]) != 2 for i in range(nd)]
         dir_rows = [f * nd + i for f in range(g.num_faces) if abs(kinds[f]) == 1 for i in range(nd)]
         neu = [f for f in bfaces if abs(kinds[f]) == 2]
-        return {"dim": int(nd), "nf": int(g.num_faces), "nc": int(nc), "kinds": kinds,
+        local = None
+        if loc.get("n_ds") == 1 and {"A", "rc", "rb", "sd"} <= set(loc):
+            from porepy.numerics.fv import _fvutils
+            rb, be, st, subface_rhs = loc["rb"]
+            A = sps.csr_matrix(loc["A"])
+            sd2 = loc["sd"]
+            if not subface_rhs and A.shape[0] == A.shape[1] and A.nnz <= 2500:
+                hf2f = _fvutils.map_hf_2_f(st.fno_unique, st.subfno_unique, sd2.dim)
+                RB = sps.csr_matrix(rb) @ hf2f.T
+                lo = int(be.exclude_bnd.shape[0])
+                pad = lambda a: (np.vstack([a, np.zeros((3 - a.shape[0], a.shape[1]))])
+                                 if a.shape[0] < 3 else np.asarray(a, dtype=float))
+                local = {"nrows": int(A.shape[0]), "lo": lo, "hi": lo + int(be.keep_neu.shape[0]),
+                         "A": canon(A), "RC": canon(loc["rc"]), "RB": canon(RB),
+                         "cc": pad(sd2.cell_centers).T.tolist(), "fc": pad(sd2.face_centers).T.tolist(),
+                         "nr": pad(sd2.face_normals).T.tolist()}
+        inv = None
+        if case.get("inv") and len(captured) == 1:
+            A, _, B = captured[0]
+            A, B = sps.csr_matrix(A), sps.csr_matrix(B)
+            if A.shape == B.shape and A.nnz + B.nnz <= 1200:
+                inv = {"n": int(A.shape[0]), "A": canon(A), "B": canon(B)}
+        return {"dim": int(nd), "nf": int(g.num_faces), "nc": int(nc), "kinds": kinds, "inv": inv, "local": local,
                 "neu_share_edge": bool(nd == 3 and shares_edge_3d(g, neu)),
                 "max_cond": max_cond, "singular": bool(max_cond > SINGULAR),
                 "stress": canon(md[discr.stress_matrix_key], non_neu_rows),
@@ -326,7 +403,21 @@ class C13(Prop):
             return None  # outside the guard of the theorems / known findings / too large
         nb = sum(1 for k in res["kinds"] if k != 0)
         nn = sum(1 for k in res["kinds"] if abs(k) == 2)
-        return f"check_caseV2 {zi(res['nf'])} {zi(nb)} {zi(nn)} {self._inst(case, res)}"
+        t = f"check_caseV2 {zi(res['nf'])} {zi(nb)} {zi(nn)} {self._inst(case, res)}"
+        if res.get("local"):
+            # certificate (ii): the captured local equations, all rows but the Neumann rows
+            L = res["local"]
+            d = res["dim"]
+            arr = lambda key: np.array(L[key], dtype=float).T
+            inst = ("(mk_instV {} {} {} {} {} {} {} {} {} [] [])".format(
+                d, pts(arr("cc"), d), pts(arr("fc"), d), pts(arr("nr"), d),
+                pk(case["mu"]), pk(case["la"]), zlist(res["kinds"], zi), dcoo(L["RC"]), dcoo(L["RB"])))
+            t = (f"andb ({t}) (check_localV {zi(L['nrows'])} {zi(len(L['A']))} {zi(L['lo'])} "
+                 f"{zi(L['hi'])} {inst} {dcoo(L['A'])})")
+        if res.get("inv"):
+            # the inverter's output is an approximate left inverse of all local systems
+            t = f"andb ({t}) ({inv_term(res['inv'])})"
+        return t
 
     def coq_diag(self, case, res):
         return f"diag_caseV {self._inst(case, res)}"
